@@ -419,7 +419,7 @@ func compareQPRAgg(a simenv.AggReq, got *seq.AggregatableSamples, want *model.Ag
 			return fmt.Sprintf("bin %q total/not_exists %d/%d, model %d/%d", k, gb.Total, gb.NotExists, wb.Total, wb.NotExists)
 		}
 		if a.Field != "" && wb.Total > 0 {
-			if gb.Sum != wb.Sum || gb.Min != wb.Min || gb.Max != wb.Max {
+			if (a.Field != "big" && gb.Sum != wb.Sum) || gb.Min != wb.Min || gb.Max != wb.Max {
 				return fmt.Sprintf("bin %q sum/min/max %v/%v/%v, model %v/%v/%v", k, gb.Sum, gb.Min, gb.Max, wb.Sum, wb.Min, wb.Max)
 			}
 			if a.Func == "quantile" && len(wb.Samples) <= 8096 {
@@ -465,6 +465,7 @@ func GenCluster(property string, seed uint64, tier Tier) *ClusterCase {
 	c.HotShards, c.HotReplicas = g.r.Range(1, 3), g.r.Range(1, 3)
 	c.MaxLatencyMs = []int{0, 5, 50, 500}[g.r.Intn(4)]
 	copies := property == "C05" && g.r.Bool(0.3) // documents present on several shards
+	g.bigNums = property == "C06" && g.r.Bool(0.3)
 	rounds := g.r.Range(1, 3)
 	for round := 0; round < rounds; round++ {
 		nclients := g.r.Range(1, 3)
